@@ -228,6 +228,26 @@ def reused_predicate_histories(rng, n):
             if not r:
                 bad.append({"predicate": jsonable(shape), "engine": list(eng), "history": history[:], "problem": what + " was not rejected with ColumnError"})
                 break
+        # a join with EXPLICIT common columns that the target does not have (directly, below an operation, and issued
+        # downstream of a transfer so that it reaches the other engine by backtracking)
+        kx = enc.K(9)
+        fixed = mp.build_impl(("leaf", 4, eng, sorted([kx, y]), [{kx: 1, y: 2}], (0, None)), w)
+        other_eng = [e for e in mp.ENGINES if e != eng][0]
+        targets = [A, A.with_rows_satisfying(enc.ipred(("cmp", "ge", ("ref", a), ("lit", 0))))]
+        try:
+            targets.append(A.transferred_to(w.engine(other_eng)))
+        except Exception:  # noqa: BLE001
+            pass
+        for tgt in targets:
+            jn = dr.Join(min_columns=frozenset({kx}), max_columns=frozenset({kx})).partial(fixed)
+            what = f"join ON explicit column k9 applied to {tgt} (which has no k9)"
+            try:
+                jn.apply(tgt)
+                bad.append({"engine": list(eng), "problem": what + " was accepted"})
+            except (dr.ColumnError, dr.EngineError):
+                pass
+            except Exception as e:  # noqa: BLE001
+                bad.append({"engine": list(eng), "problem": what + f" raised {type(e).__name__}"})
         # an unsupported function term that COMPARES EQUAL to a supported one the relation already selects on
         from lsst.daf.relation import iteration as _it, sql as _sql
         E = dr.ColumnExpression
